@@ -177,15 +177,22 @@ def run_worker(cmd, on_rec, stdin_text=None, timeout=None):
         cur.crashed = True
         cur.verdict = "VIOL"
         pa = None
+        forced = None
         if proto_abort:
+            label = re.sub(r"[^A-Za-z0-9_.:-]+", "_", proto_abort.split("op=", 1)[-1].split(" |")[0].strip())[:60] if "op=" in proto_abort else ""
             if proto_abort.startswith("BUDGET-EXCEEDED"):
-                pa = "hang:edge-budget@" + re.sub(r"[^A-Za-z0-9_.:-]+", "_", proto_abort[len("BUDGET-EXCEEDED op="):])[:60]
+                forced = "hang:edge-budget@" + label
             elif proto_abort.startswith("TERMINATE"):
-                pa = "terminate"
+                forced = "terminate@" + label
             elif proto_abort.startswith("SIM-DEADLOCK"):
-                pa = "deadlock"
+                forced = "deadlock"
             elif proto_abort.startswith("SIM-STUCK") or proto_abort == "WALL-TIMEOUT":
-                pa = "infra:stuck"
+                forced = "infra:stuck"
+        if forced:
+            cur.vclass = forced
+            cur.detail = (proto_abort or "") + " | " + " / ".join(x.strip() for x in cur.noise[:6])
+            leftover = cur
+            return rc, last_index, leftover, tail, done
         cur.vclass = classify_noise(cur.noise, rc, pa)
         cur.detail = (proto_abort or "") + " | " + " / ".join(x.strip() for x in cur.noise[:6])
         leftover = cur
